@@ -19,7 +19,7 @@ RULE = ('case = outcome word over {delivered+acked, uplink lost, ack lost} (ALL 
         'submission schedule, observed frame-sequence hash).')
 ASSUMPTIONS = ['peer model = nRF51 ESB safelink rules (see vf/radiosim.py)', 'each transmission costs 1 ms of virtual time',
                'null packet = header 0xFF/0xF3 with empty payload; the 3-byte ff 05 01 negotiation frame is not data']
-REQUIRED = ['mon.words_exhaustive', 'mon.random_words', 'mon.uplink_packets', 'mon.downlink_packets', 'mon.link_errors_expected',
+REQUIRED = ['mon.words_exhaustive', 'mon.random_words', 'mon.uplink_packets', 'mon.downlink_packets', 'mon.downlink_header_only_packets', 'mon.link_errors_expected',
             'mon.negotiation_loss_cases', 'mon.no_safelink_cases', 'mon.full_stack_cases', 'mon.multi_submitter_cases']
 EXHAUSTIVE = {'quick': False, 'thorough': False}
 EXHAUSTIVE_NOTE = 'outcome words up to the stated length are enumerated completely; submission schedules are sampled per word'
@@ -45,12 +45,15 @@ def cases(tier, seed):
     return out
 
 
-def mkpk(uid, rnd):
-    """(header, payload) of a data packet; port/channel never 15/3 with empty payload."""
+def mkpk(uid, rnd, header_only_ok=False):
+    """(header, payload) of a data packet; port/channel never 15/3 with empty payload.  Downlink packets may consist of
+    the header alone (a CRTP packet without payload is one byte on the air, like a null packet, but is data)."""
     port = rnd.choice((0, 2, 3, 4, 5, 6, 7, 8, 13, 15))
     chan = rnd.randrange(4)
     if port == 15 and chan == 3:
         chan = 0
+    if header_only_ok and rnd.random() < 0.15:
+        return (port << 4 | 0x0C | chan, b'')
     n = rnd.randint(0, 28)
     return (port << 4 | 0x0C | chan, bytes([uid & 0xFF, (uid >> 8) & 0xFF]) + bytes(rnd.getrandbits(8) for _ in range(n)))
 
@@ -64,7 +67,7 @@ def one(ctx, word, n_up, n_down, sub_pos, down_pos, N, safelink=True, nsub=1, ss
     from cflib.crtp.crtpstack import CRTPPacket
     rnd = random.Random(sseed)
     ups = [mkpk(1000 + i, rnd) for i in range(n_up)]
-    downs = [mkpk(2000 + i, rnd) for i in range(n_down)]
+    downs = [mkpk(2000 + i, rnd, header_only_ok=True) for i in range(n_down)]
     peer = radiosim.Peer(supports_safelink=safelink, echo_garbage=garbage)
     radio = radiosim.ScriptedRadio(peer, [SYM[x] if isinstance(x, int) else x for x in word])
     ob = {'errors': [], 'accepted_by_send': [], 'received': [], 'needs_resending': None, 'refused': []}
@@ -208,6 +211,7 @@ def one(ctx, word, n_up, n_down, sub_pos, down_pos, N, safelink=True, nsub=1, ss
         rec = [((h | 0x0C), d) for (h, d) in rec]
         deq = [((p[0] | 0x0C), p[1:]) for p in peer.dequeued]
         ctx.count('mon.downlink_packets', len(deq))
+        ctx.count('mon.downlink_header_only_packets', sum(1 for q in deq if not q[1]))
         if rec != deq and rec != deq[:-1]:
             dup = len(rec) != len(set(rec))
             V('radio:downlink-%s' % ('packet-duplicated' if dup else ('packet-lost' if len(rec) < len(deq) else 'order-or-content-differs')),
@@ -308,7 +312,7 @@ def run_stack(desc, ctx, rnd):
     peer = radiosim.Peer()
     dev.peers[(chan, rate, addr)] = peer
     ups = [mkpk(1000 + i, rnd) for i in range(rnd.randint(1, 25))]
-    downs = [mkpk(2000 + i, rnd) for i in range(rnd.randint(1, 25))]
+    downs = [mkpk(2000 + i, rnd, header_only_ok=True) for i in range(rnd.randint(1, 25))]
     for d in downs:
         peer.queue(bytes([d[0]]) + d[1])
     ob = {'rec': [], 'err': [], 'sent_ok': 0}
